@@ -1,5 +1,5 @@
 """
-F-C12-4 (property C12): events.post_event contains only a part of the infrastructure failures of its POST:
+F-C12-5 (property C12): events.post_event contains only a part of the infrastructure failures of its POST:
 errors.APIError, aiohttp.ClientResponseError, aiohttp.ServerDisconnectedError and aiohttp.ClientOSError are
 logged and ignored ("Events are helpful but auxiliary, they should not fail the handling cycle"), but the other
 network failures that api.request escalates as themselves once the backoffs are exhausted (contract N2:
@@ -8,7 +8,7 @@ subclasses that are neither ClientOSError nor ServerDisconnectedError, e.g. Clie
 ServerConnectionError) propagate out of post_event into posting.poster() -- a ROOT task of the operator
 (running.spawn_tasks: "poster of events"): the task dies and run_tasks() stops the whole operator.
 A time-out while posting one auxiliary k8s-event is fatal for the operator, which C12 excludes ("never fatal").
-Run:  /venv/bin/python /verif/findings/F-C12-4.py      (exit 1 = defect reproduced)
+Run:  /venv/bin/python /verif/findings/F-C12-5.py      (exit 1 = defect reproduced)
 """
 import asyncio
 import logging
